@@ -12,11 +12,12 @@ def WidthOk : Scalar → Prop
   | .void w => 1 ≤ w ∧ w ≤ 64
   | _ => True
 
-/-- … and array capacity ≥ 1 -/
+/-- … and array capacity ≥ 1; the implicit length field of a variable-length array is an unsigned integer of a legal width
+    (8/16/32/64 bits), i.e. its capacity is below 2^64 -/
 def TypeOk : Ty → Prop
   | .scalar s => WidthOk s
   | .fixedArr e cap => WidthOk e ∧ 1 ≤ cap
-  | .varArr e cap => WidthOk e ∧ 1 ≤ cap
+  | .varArr e cap => WidthOk e ∧ 1 ≤ cap ∧ cap < 2 ^ 64
 
 /-- a constant is of a boolean, integer or float type -/
 def ConstTypeOk : Ty → Prop
@@ -101,7 +102,7 @@ theorem Scalar.ctorOk_iff (s : Scalar) : s.ctorOk = true ↔ WidthOk s := by
   | _ => simp [Scalar.ctorOk, WidthOk]
 
 theorem Ty.ctorOk_iff (t : Ty) : t.ctorOk = true ↔ TypeOk t := by
-  cases t <;> simp [Ty.ctorOk, TypeOk, Scalar.ctorOk_iff]
+  cases t <;> simp [Ty.ctorOk, TypeOk, Scalar.ctorOk_iff, and_assoc]
 
 theorem attrCtorOk_iff (st : RStmt) : attrCtorOk st = true ↔ AttrOk st := by
   cases st with
